@@ -545,9 +545,12 @@ func (s *Session) nativeBinaryOpt(pkg string, race bool) (string, string) {
 // order, goroutine timing).
 func (s *Session) replayNative(spec HarnessSpec, file string, kind, msg string) (string, string) {
 	var res, detail string
-	for attempt := 0; attempt < 5; attempt++ {
+	t0 := time.Now()
+	// Go starts a map iteration at a random slot of the bucket, so for a two-entry map one of the two orders has
+	// probability 1/8 only: up to 40 runs, as long as they are quick (45 s in total)
+	for attempt := 0; attempt < 40; attempt++ {
 		res, detail = s.replayNativeOnce(spec, file, kind, msg)
-		if res != "not-reproduced" {
+		if res != "not-reproduced" || time.Since(t0) > 45*time.Second {
 			break
 		}
 	}
